@@ -31,26 +31,35 @@ vars == <<m, hist, ms>>
 
 \* ---------------------------------------------------------------- the corpus, abstractly
 \* ctype: "cont" | "cat" | "both" (a few integer levels: usable with either family of templates)
+\* noiiv: parameters of the start model without an eta.  "phenoexp" = pheno written by hand with the covariate
+\* effect on CL inside an exponential, CL = TVCL*EXP(THETA(4)*(WGT - 1.3)), and no eta on CL: an exp eta added to it
+\* shares the exponential with the covariate term
 World(name) ==
-    IF name = "pheno"
-    THEN [params |-> {"CL", "VC"},
+    CASE name = "pheno" ->
+         [params |-> {"CL", "VC"},
           ctype  |-> [WGT |-> "cont", APGR |-> "both", FA1 |-> "cat"],
           cov0   |-> {<<"CL", "WGT">>, <<"VC", "WGT">>, <<"VC", "APGR">>},
-          occ    |-> "FA1", allovar |-> "WGT", abs0 |-> "INST"]
-    ELSE [params |-> {"CL", "VC", "MAT"},
+          occ    |-> "FA1", allovar |-> "WGT", abs0 |-> "INST", noiiv |-> {}]
+      [] name = "phenoexp" ->
+         [params |-> {"CL", "V"},
+          ctype  |-> [WGT |-> "cont", APGR |-> "both", FA1 |-> "cat"],
+          cov0   |-> {<<"CL", "WGT">>, <<"V", "WGT">>, <<"V", "APGR">>},
+          occ    |-> "FA1", allovar |-> "WGT", abs0 |-> "INST", noiiv |-> {"CL"}]
+      [] OTHER ->
+         [params |-> {"CL", "VC", "MAT"},
           ctype  |-> [WT |-> "cont", AGE |-> "cont", SEX |-> "cat", CLCR |-> "cont"],
           cov0   |-> {},
-          occ    |-> "VISI", allovar |-> "WT", abs0 |-> "FO"]
+          occ    |-> "VISI", allovar |-> "WT", abs0 |-> "FO", noiiv |-> {}]
 CovsOf(w) == DOMAIN w.ctype
 EffectsFor(t) == CASE t = "cont" -> ContEffects [] t = "cat" -> CatEffects [] OTHER -> AllEffects
-AlloParams == {"CL", "VC"}     \* clearance and volume parameters
+AlloParams == {"CL", "VC", "V"}     \* clearance and volume parameters
 
 Start(name) ==
     LET w == World(name) IN
     [model |-> name,
      ext   |-> [p \in w.params |->
                    \* effects of the start model are opaque ("base"), its etas are exponential
-                   <<[k |-> "iiv", form |-> "exp", op |-> "*"]>>],
+                   IF p \in w.noiiv THEN <<>> ELSE <<[k |-> "iiv", form |-> "exp", op |-> "*"]>>],
      cov   |-> w.cov0,
      iov   |-> {},
      tr    |-> "none",
@@ -85,6 +94,9 @@ ActRmErr  == {A("rmerr", "", "", "", "")}
 ActDeco   == {A(d, "", "", "", "") : d \in {"power", "iivruv", "timevar", "weighted"}}
 ActAbs    == {A("abs", "", "", a, "") : a \in {"FO", "ZO", "SEQ", "INST"}}
 ActTransit == {A("transit", "", "", n, "") : n \in {"0", "1", "3"}}
+\* write the model and read it back (model.code -> read_model_from_string): the function is C02's to keep; here it
+\* only puts a round trip between two setters, so that they meet the re-read form of the model (named rates K12 = n/MDT)
+ActReread == {A("reread", "", "", "", "")}
 
 \* the mean absorption time exists as an individual parameter only while the model has an absorption phase
 HasParam(mm, p) == p = "" \/ p # "MAT" \/ mm.abs \in {"FO", "ZO", "SEQ"}
@@ -110,6 +122,7 @@ Enabled(mm, a) ==
       \* (totality of setter sequences is C08's property; SEQ -> INST is its known finding C08-F4)
       [] a.k = "abs"     -> mm.transits = 0 /\ ~(mm.abs = "SEQ" /\ a.x = "INST")
       [] a.k = "transit" -> mm.abs \in {"FO", "INST"}
+      [] a.k = "reread"  -> mm.tr = "none" /\ mm.iov = {} /\ mm.deco = {}
       [] OTHER -> FALSE
 
 \* allometry scales the clearance / volume parameters that do not yet depend on the variable
@@ -185,9 +198,10 @@ DoRemoveErr  == "err" \in Groups /\ \E a \in ActRmErr : Step(a)
 DoDecorateErr == "err" \in Groups /\ \E a \in ActDeco : Step(a)
 DoSetAbsorption == "abs" \in Groups /\ \E a \in ActAbs : Step(a)
 DoSetTransits == "abs" \in Groups /\ \E a \in ActTransit : Step(a)
+DoReread == "abs" \in Groups /\ \E a \in ActReread : Step(a)
 
 Next == \/ DoAddCov \/ DoRemoveCov \/ DoAllometry \/ DoAddIIV \/ DoRemoveIIV \/ DoAddIOV \/ DoRemoveIOV
-        \/ DoTransform \/ DoSetErr \/ DoRemoveErr \/ DoDecorateErr \/ DoSetAbsorption \/ DoSetTransits
+        \/ DoTransform \/ DoSetErr \/ DoRemoveErr \/ DoDecorateErr \/ DoSetAbsorption \/ DoSetTransits \/ DoReread
 Spec == Init /\ [][Next]_vars
 
 \* ---------------------------------------------------------------- abstract semantics
